@@ -615,6 +615,15 @@ theorem o2o_replaced_partner_rejected (D : DH) (marshal : Nat → Nat) (dec : Na
     simp only [sortPair] at hsp
     split at hsp <;> split at hsp <;> simp only [Prod.mk.injEq] at hsp <;> omega
 
+/-- **o2o_constructor_info_is_genuine.** The one-to-one info the payload constructor encodes into header
+and ACL root (`oneToOneIn`: `encO2O (pub shared) writers` of `oneToOneCore`) is exactly the root
+`genuineInfo` the ACL-state theorems speak about (marshalling taken as the identity on symbols): the
+constructor side (`oneToOne_symmetric`) and the reader side (`o2o_genuine_root_usable_by_both`) meet. -/
+theorem o2o_constructor_info_is_genuine (D : DH) (dec : Nat → Option Nat) (a b ty : Nat) :
+    let c := oneToOneCore D a (D.pub b) ty
+    genuineInfo ⟨dec, id, D.pub, fun x y => some (sharedKey D x y)⟩ c.shared (D.pub a) (D.pub b) =
+      ⟨some (D.pub c.shared), [c.writers.1, c.writers.2]⟩ := rfl
+
 -- non-vacuity, evaluated in the toy instance: the genuine root of (1, 2) is usable by 1 and by 2 with
 -- the same keys, not by 3; with a third writer, a dropped writer or 2 replaced by 3 nobody gets a state
 private def toyP : O2OPrims := ⟨some, id, Term.dhToy.pub, fun x y => some (sharedKey Term.dhToy x y)⟩
